@@ -418,8 +418,11 @@ func (r *mapRun) exec(op absOp) {
 				}
 				root = &r2
 			}
+			// the Root record belongs to the caller: the tree is opened from a copy that the caller then reuses for something else
+			scratch := *root
 			var err error
-			m, err = root.LoadMast(ctx, r.remoteCfg(op.Cached))
+			m, err = scratch.LoadMast(ctx, r.remoteCfg(op.Cached))
+			scratch = mast.Root{Size: 12345, Height: 7, BranchFactor: 9, NodeFormat: "overwritten-by-the-caller"}
 			return err
 		})
 		if ev.Res == "ok" {
